@@ -37,7 +37,10 @@ ElemJudge(d, c) ==
   LET V == [absent |-> c.absent, isComp |-> c.isComp, s |-> c.s, cp |-> c.cp, ext |-> c.ext, rx |-> c.rx]
       S == [cs |-> c.cs, excl |-> c.excl, tl |-> IF c.qual # "" THEN Selected(c.qual) ELSE c.tl]
       B == Broken(d, V, S)
-  IN [clause |-> IF ~c.absent /\ ~c.isComp /\ ~TransportOK(c) THEN "transport" ELSE Clause(B, c),
+      base == Clause(B, c)
+  IN [clause |-> IF ~c.absent /\ ~c.isComp /\ ~TransportOK(c) THEN "transport"
+                 ELSE IF base # "" THEN base
+                 ELSE IF ~Complete(B, SeqSet(c.codes)) THEN "incomplete" ELSE "",
       names |-> {b[1] : b \in B}, nb |-> Cardinality(B), implied |-> Implied(B)]
 
 CompJudge(d, c) ==
